@@ -492,9 +492,16 @@ class Oracle:
 
         if isinstance(scope_node, (ast.FunctionDef, ast.AsyncFunctionDef, ast.Lambda)):
             a = scope_node.args
-            for p in a.posonlyargs + a.args + a.kwonlyargs + [q for q in (a.vararg, a.kwarg) if q]:
+            for p in a.args + [q for q in (a.vararg, a.kwarg) if q]:
                 if p.arg == x:
                     out.append((scope_node.lineno, "param"))
+            # parameter kinds rope's function scopes do not record (open findings C15-posonly-param / -kwonly-param)
+            for p in a.posonlyargs:
+                if p.arg == x:
+                    out.append((scope_node.lineno, "param-posonly"))
+            for p in a.kwonlyargs:
+                if p.arg == x:
+                    out.append((scope_node.lineno, "param-kwonly"))
         if isinstance(scope_node, c15.COMP_NODES):
             for g in scope_node.generators:
                 targets(g.target, "comp-target")
@@ -627,6 +634,11 @@ class Oracle:
             return None, cause
         if got_line is None and kinds and kinds <= {"walrus", "annotation", "augassign", "del"}:
             return None, "C20:definition-line-unknown"
+        unrecorded = kinds & {"param-posonly", "param-kwonly"}
+        if unrecorded and (got_line is None or got_line in want) \
+                and kinds - unrecorded <= {"walrus", "annotation", "augassign", "del"}:
+            # the parameter is not in rope's table of the function (C15): what is left of the name has no line
+            return None, "posonly-param" if "param-posonly" in unrecorded else "kwonly-param"
         if r is self.root and self.declared_global_below(x) and (got_line is None or got_line in want):
             return None, "global-declaration-not-honoured"
         if r is not None and not isinstance(r, str) and got_line is None \
